@@ -34,6 +34,8 @@ PlainAmbiguous(e) ==
         /\ Abs(f.site - g.site) > e.radius /\ Abs(Other(f) - Other(g)) <= e.radius
 ExactApplies(e) == e.hd = 0 /\ (e.radius = 0 \/ e.kind = "nla") /\ ~PlainAmbiguous(e)
 
+InRegion(e) == C07Region(e.frags, IF e.kind = "nla" THEN 0 ELSE e.radius, e.cache) /\ SortedInput(e.frags, e.readlen)
+
 ---------------------------------------------------------------------------------------------------
 (* C06 *)
 MolEmits(round) == [k \in DOMAIN round |-> [ids |-> [j \in DOMAIN round[k].recs |-> round[k].recs[j].id], at |-> round[k].at]]
@@ -86,6 +88,13 @@ RoundsVerdict(e) ==
 (* with the same settings (e.reuse.fresh); only schedule-independent clauses are judged absolutely                 *)
 TagSet(round, g) == LET k == CHOOSE k \in DOMAIN round : SeqSet(MolEmits(round)[k].ids) = g
                     IN { [id |-> round[k].recs[j].id, t |-> FragRec(round[k].recs[j])] : j \in DOMAIN round[k].recs }
+(* the same library under ejection (check after every fragment, small cache): inside the region in which C07's  *)
+(* design is verified, "molecules = truth classes" and all other clauses must hold for that run as well         *)
+EjectVerdict(e) ==
+    LET e2 == [e EXCEPT !.sched = e.reuse.sched, !.cache = e.reuse.cache] IN
+    IF e.reuse.raised # "" \/ ~InRegion(e2) THEN "ok"
+    ELSE LET v == RoundVerdict(e2, e.reuse.fresh) IN IF v = "ok" THEN "ok" ELSE "Inv_C06_UnderEjection_" \o v
+
 ReuseVerdict(e) ==
     LET F == e.frags
         fr == e.reuse.fresh
@@ -103,12 +112,12 @@ ReuseVerdict(e) ==
 
 LibVerdict(e) ==
     LET v == RoundsVerdict(e) IN
-    IF v # "ok" THEN v ELSE IF Has(e, "reuse") THEN ReuseVerdict(e) ELSE "ok"
+    IF v # "ok" THEN v
+    ELSE IF ~Has(e, "reuse") THEN "ok"
+    ELSE LET w == EjectVerdict(e) IN IF w # "ok" THEN w ELSE ReuseVerdict(e)
 
 ---------------------------------------------------------------------------------------------------
 (* C07 *)
-InRegion(e) == C07Region(e.frags, IF e.kind = "nla" THEN 0 ELSE e.radius, e.cache) /\ SortedInput(e.frags, e.readlen)
-
 (* reference runs are fresh iterators; runs marked `reuse` are the second pass over an iterator object whose   *)
 (* first pass was abandoned after the first emitted molecule (history): judged like any other run            *)
 Fresh(r) == ~Has(r, "reuse")
@@ -125,7 +134,8 @@ RunVerdict(e, k) ==
     ELSE IF HasRun(e, -1, r.pooling) /\ GroupsOf(r.emits) # GroupsOf(e.runs[RunOf(e, -1, r.pooling)].emits) THEN "Inv_C07_SamePartition"
     ELSE IF e.hd = 0 /\ e.cap = 0 /\ (e.radius = 0 \/ e.kind = "nla") /\ HasRun(e, -1, 1 - r.pooling)
             /\ GroupsOf(r.emits) # GroupsOf(e.runs[RunOf(e, -1, 1 - r.pooling)].emits)
-         THEN (IF e.kind = "plain" /\ InteriorMatch(F, Valid(F)) THEN "Inv_C07_PoolingAgnostic_interior_member_match"
+         THEN (IF e.kind = "plain" /\ HasRun(e, -1, 0) /\ InteriorJoin(F, GroupsOf(e.runs[RunOf(e, -1, 0)].emits))
+               THEN "Inv_C07_PoolingAgnostic_interior_member_match"
                ELSE "Inv_C07_PoolingAgnostic")
     ELSE "ok"
 
@@ -137,8 +147,22 @@ SchedVerdict(e) ==
     ELSE "ok"
 
 (* informational: outside the verified region / ambiguous plain library / D-level divergence from the model *)
+(* D-level observation (never an alarm): with pooling 1 the code compares a candidate with the molecule's          *)
+(* representative = first most common UMI of the members so far (anchor "Molecule.umi / umi_counter").  The        *)
+(* statement only asks for UMI linkage (pooling 0 compares with every member), so a molecule built differently is   *)
+(* reported as a divergence from the design, not as a violation.  recs are in join order.                          *)
+RepOf(us) == LET cnt(k) == Cardinality({ j \in DOMAIN us : us[j] = us[k] })
+                 best == CHOOSE k \in DOMAIN us : \A j \in DOMAIN us : cnt(j) <= cnt(k) /\ (j < k => cnt(j) < cnt(k))
+             IN us[best]
+NotViaRepresentative(e) ==
+    e.ev = "lib" /\ e.pooling = 1 /\ e.hd > 0 /\
+    \E m \in DOMAIN e.rounds[1] :
+        LET us == [j \in DOMAIN e.rounds[1][m].recs |-> e.frags[e.rounds[1][m].recs[j].id].umi] IN
+        \E k \in 2 .. Len(us) : ~UmiClose(e.hd, us[k], RepOf(SubSeq(us, 1, k - 1)))
+
 Remark(e) ==
     IF e.ev = "sched" /\ ~InRegion(e) THEN "outside_c07_region"
+    ELSE IF NotViaRepresentative(e) THEN "divergence_member_not_within_hd_of_most_common_umi"
     ELSE IF PlainAmbiguous(e) THEN "plain_ambiguous_anchor"
     ELSE IF e.ev = "sched" /\ e.model # <<>> /\ e.runs[1].raised = ""
               /\ GroupsOf(e.runs[1].emits) # { SeqSet(e.model[m]) : m \in DOMAIN e.model } THEN "divergence_from_design_model"
